@@ -19,9 +19,10 @@ def run(ctx):
     leaks.K3(ctx)
     leaks.K4_refcnt(ctx)
     leaks.K4_alloc(ctx)
-    from .C09 import Q1, Q4
+    from .C09 import Q1, Q4, Q5
     Q1(ctx)
     Q4(ctx)
+    Q5(ctx)
     from . import g_dpor
     g_dpor.V3(ctx, subset=("rt::arc",))
     leaks.K5(ctx)
